@@ -35,7 +35,7 @@ Record case := mkCase {
 Definition thread_of (t : tinfo) : thread :=
   mkT (ti_id t) (repeat [] (ti_depth t))
       (match ti_is t with
-       | Some r => Some (mkIS r IStop 0 true [] (if ti_err t then Some GNull else None))
+       | Some r => Some (mkIS r IStop 0 true [] (if ti_err t then Some GNull else None) 0)
        | None => None
        end).
 
